@@ -154,6 +154,9 @@ def check(run: Run) -> None:
 
     for name in ("process_function_call", "process_parameterized_method_call", "process_method_call"):
         fi = final_delegate(m, need(name))  # the function that produces the result (a private helper the work was moved to)
+        from ..normalise import unrolled
+
+        fi = unrolled(m, fi)  # recording may go through a small private procedure (self._record_type(a, b, t))
         fa_ = ctx.analysis(fi)
         ft = ("attr", ("param", fi.pos_params[0]), "_found_types")
         keys = set()
